@@ -30,8 +30,8 @@ CLAIMS = {
         note="Trusted: Kronecker/vec convention stated in operators.py; eta.real/eta.imag real. Partial claim: structural necessary conditions only.",
         ref="2/C04 and 7.2"),
     "C05": dict(
-        technique="typestate on matrices (HERMITIAN established -> decomposition must be of the Hermitian family); adjoint-pair operand check by flow into keyword / attribute; index calculus (dot, @, tensordot, einsum, moveaxis, .T) of the transformed MPO tensor; definite-initialisation rule of the rotation pair over the back-end class family",
-        text="Decides that the diagonalising transform comes from a solver whose contract gives a unitary transform and real eigenvalues for every Hermitian input (E1), and that forward/backward basis changes are mutual adjoints at every consumer (E2), Bath stores the solver's outputs unchanged (E3), and both get_mpo_tensor return M_in[k,i] T[a,b,i,j] M_out[j,l] (E4). Numerical covariance of dynamics is not decided. E2 also requires that every back-end class instantiated in the package builds the rotation pair before it rotates.",
+        technique="typestate on matrices (HERMITIAN established -> decomposition must be of the Hermitian family); adjoint-pair operand check by flow into keyword / attribute; index calculus (dot, @, tensordot, einsum, moveaxis, .T) of the transformed MPO tensor; definite-initialisation rule of the rotation pair over the back-end class family; exchanged-argument rule over calls with known signatures",
+        text="Decides that the diagonalising transform comes from a solver whose contract gives a unitary transform and real eigenvalues for every Hermitian input (E1), and that forward/backward basis changes are mutual adjoints at every consumer (E2), Bath stores the solver's outputs unchanged (E3), and both get_mpo_tensor return M_in[k,i] T[a,b,i,j] M_out[j,l] (E4). Numerical covariance of dynamics is not decided. E2 also requires that every back-end class instantiated in the package builds the rotation pair before it rotates. E6: transform_in and transform_out (or any two plain names) are never passed in each other's positions.",
         note="Trusted: frozen numpy/scipy table (eigh family vs general eig). Partial claim.",
         ref="2/C05"),
     "C06": dict(
@@ -85,8 +85,8 @@ CLAIMS = {
         note="Trusted: forms engine; role vocabulary. Floating-point non-associativity not decided.",
         ref="2/C15"),
     "C16": dict(
-        technique="writer/reader key-table agreement; field coverage of export/import; nullness round-trip of setter/getter pairs; sibling agreement of the two get_mpo_tensor / PtTempo constructions; value-preservation analysis of export / import and of the HDF5 helpers; memo-key rule over the process-tensor getters incl. single-slot memos",
-        text="Decides table agreement of HDF5 keys (X1), field coverage of export and import (X2), None round-trip (X3), shape/data index pairing (X4), raw-vs-transformed discipline as an index-contraction signature of both get_mpo_tensor (X5), agreement of the two PtTempo constructions (X6), dtype table (X7). Bitwise equality through HDF5 is not decided. X9: export and import move tensors through value-preserving conversions only. X10: no getter of a process tensor serves a remembered value whose key leaves out an argument of the request (e.g. the transformed flag).",
+        technique="writer/reader key-table agreement; field coverage of export/import; nullness round-trip of setter/getter pairs; sibling agreement of the two get_mpo_tensor / PtTempo constructions; value-preservation analysis of export / import and of the HDF5 helpers; memo-key rule over the process-tensor getters incl. single-slot memos; exchanged-argument rule over calls with known signatures",
+        text="Decides table agreement of HDF5 keys (X1), field coverage of export and import (X2), None round-trip (X3), shape/data index pairing (X4), raw-vs-transformed discipline as an index-contraction signature of both get_mpo_tensor (X5), agreement of the two PtTempo constructions (X6), dtype table (X7). Bitwise equality through HDF5 is not decided. X9: export and import move tensors through value-preserving conversions only. X10: no getter of a process tensor serves a remembered value whose key leaves out an argument of the request (e.g. the transformed flag). X11: every field reaches the constructor parameter it is named after (no two names passed in each other's positions, also through super().__init__).",
         note="Trusted: h5py dataset API table. Partial claim.",
         ref="2/C16"),
     "C17": dict(
@@ -95,8 +95,8 @@ CLAIMS = {
         note="Trusted: h5py/numpy semantics table. What HDF5 has flushed at an arbitrary kill point is not decided.",
         ref="2/C17"),
     "C18": dict(
-        technique="operand-position check on accumulation sites identified by def-use; event-order check on the CFG with events classified by provenance; products of superoperators with feasible-path filtering; ownership analysis of in-place updates; sortedness requirement for itertools.groupby over stacked controls",
-        text="Decides composition order of stacked controls (O1), pre/record/post/propagate order of all steppers on every path (O2), float-time rounding and the None convention (O3). O2 reads products of controls and propagators (factors in cycle order, fused-in roles checked on feasible paths). O6: controls and propagators are never combined by updating a shared array in place. O1 also covers list slots folded at read time and requires groupby input sorted by its key.",
+        technique="operand-position check on accumulation sites identified by def-use; event-order check on the CFG with events classified by provenance; products of superoperators with feasible-path filtering; ownership analysis of in-place updates; sortedness requirement for itertools.groupby over stacked controls; late-binding analysis of control closures",
+        text="Decides composition order of stacked controls (O1), pre/record/post/propagate order of all steppers on every path (O2), float-time rounding and the None convention (O3). O2 reads products of controls and propagators (factors in cycle order, fused-in roles checked on feasible paths). O6: controls and propagators are never combined by updating a shared array in place. O1 also covers list slots folded at read time and requires groupby input sorted by its key. O7: no closure that looks controls up is late-bound to the last system / site of a loop.",
         note="Trusted: `A @ B` applies B first; tensornetwork contraction is order-free.",
         ref="2/C18"),
     "C19": dict(
